@@ -21,7 +21,7 @@ func init() {
 		Assumptions: []string{"encoding/binary and the harness's own varint are the independent references",
 			"varints longer than 10 bytes or overflowing 64 bits are a grey zone for Skip: any answer without a panic and within the input is accepted"},
 		Work: c18Work,
-		Post: func(a *mc.Agg) []string { return needDims(a, "varint", "zigzag", "tag", "skip-valid", "skip-hostile") },
+		Post: func(a *mc.Agg) []string { return needDims(a, "varint", "zigzag", "tag", "decode", "skip-valid", "skip-hostile") },
 	})
 }
 
@@ -128,7 +128,107 @@ func c18Work(c *mc.Ctx) {
 		}
 	}
 	c18Tags(c, &block)
+	c18Decode(c, &block)
 	c18Skip(c, &block)
+}
+
+// c18Decode drives the reading primitives with every short byte string and with every
+// "k continuation bytes + final byte" shape around the 64-bit limit. Reference: the standard
+// varint reader (encoding/binary): a varint that fits 64 bits is read with its exact value and
+// length whatever follows it; a truncated one, or one that overflows 64 bits (more than ten
+// bytes, or a tenth byte above 1), is reported with n <= 0 - never as a wrapped value.
+func c18Decode(c *mc.Ctx, block *int) {
+	check := func(in []byte) {
+		c.Ops(3)
+		c.Count("decoder_inputs", 1)
+		c.Count("states", 1)
+		c.AddEvals(1)
+		c.Dim("decode")
+		wv, wn := binary.Uvarint(in)
+		v, n := plenccore.ReadVarUint(in)
+		switch {
+		case wn > 0 && (v != wv || n != wn):
+			c.Violation("decode|read-varuint-differs-from-standard", fmt.Sprintf("input %s: ReadVarUint=(%#x,%d), standard varint=(%#x,%d)", hx(in), v, n, wv, wn))
+		case wn <= 0 && n > 0:
+			kind := "truncated"
+			if wn < 0 {
+				kind = "overflowing"
+			}
+			c.Violation("decode|read-varuint-accepts-"+kind, fmt.Sprintf("input %s: ReadVarUint=(%#x,%d), standard varint reports n=%d", hx(in), v, n, wn))
+		}
+		if wn > 0 {
+			if len(in) > wn || wn > 1 {
+				c.NonTrivialKey("d" + string(in))
+			}
+			if iv, in2 := plenccore.ReadVarInt(in); in2 != wn || iv != int64(wv>>1)^-int64(wv&1) {
+				c.Violation("decode|read-varint-differs", fmt.Sprintf("input %s: ReadVarInt=(%d,%d)", hx(in), iv, in2))
+			}
+			wt, idx, tn := plenccore.ReadTag(in)
+			if tn != wn || int(wt) != int(wv&7) || (wv>>3 < 1<<31 && idx != int(wv>>3)) {
+				c.Violation("decode|read-tag-differs", fmt.Sprintf("input %s: ReadTag=(%d,%d,%d), varint %#x", hx(in), wt, idx, tn, wv))
+			}
+		} else {
+			c.NonTrivialKey("d" + string(in))
+			if _, n2 := plenccore.ReadVarInt(in); n2 > 0 {
+				c.Violation("decode|read-varint-accepts-malformed", fmt.Sprintf("input %s: n=%d", hx(in), n2))
+			}
+			if _, _, n3 := plenccore.ReadTag(in); n3 > 0 {
+				c.Violation("decode|read-tag-accepts-malformed", fmt.Sprintf("input %s: n=%d", hx(in), n3))
+			}
+		}
+	}
+	// (a) every byte string of length <= 2 (thorough 3)
+	maxLen := 2
+	if c.Tier == "thorough" {
+		maxLen = 3
+	}
+	for first := 0; first < 256; first++ {
+		*block++
+		if !c.Owns(*block) || !c.Begin(fmt.Sprintf(`{"set":"decode-short","first_byte":%d}`, first)) {
+			continue
+		}
+		c.Guard("decode|", func() {
+			buf := []byte{byte(first)}
+			var rec func()
+			rec = func() {
+				check(buf)
+				if len(buf) == maxLen {
+					return
+				}
+				for b := 0; b < 256; b++ {
+					buf = append(buf, byte(b))
+					rec()
+					buf = buf[:len(buf)-1]
+				}
+			}
+			rec()
+		})
+		c.Outcome("decode-ok")
+	}
+	// (b) k continuation bytes drawn from a pattern, every final byte, optional trailing byte
+	pats := [][]byte{{0x80}, {0xff}, {0x81}, {0x80, 0xff}, {0xff, 0x80}, {0xaa, 0xd5}}
+	for k := 0; k <= 12; k++ {
+		*block++
+		if !c.Owns(*block) || !c.Begin(fmt.Sprintf(`{"set":"decode-long","continuation_bytes":%d}`, k)) {
+			continue
+		}
+		c.Guard("decode|", func() {
+			for _, pat := range pats {
+				pre := make([]byte, k)
+				for i := range pre {
+					pre[i] = pat[i%len(pat)]
+				}
+				for fb := 0; fb < 256; fb++ {
+					in := append(append([]byte{}, pre...), byte(fb))
+					check(in)
+					check(append(append([]byte{}, in...), 0x00))
+					check(append(append([]byte{}, in...), 0xff, 0x01))
+				}
+				check(pre)
+			}
+		})
+		c.Outcome("decode-ok")
+	}
 }
 
 func c18Value(c *mc.Ctx, u uint64) {
